@@ -13,7 +13,7 @@ RULE = (
     "order-independent pairs; control-point counts with equal values; dihedral +-60 deg with twist of both signs: magnitude AND sense of the section rotation; multi-section and unified-spline parts); oracle = closed-form effect of each variable (oasmc ref_geom, "
     "inline) on the real Geometry group; non-trivial = output mesh differs from input (or the state is a default/no-op state)"
 )
-ASSUMPTIONS = ["finite alphabets for values; nx<=4, ny<=7", "left-half and full-span meshes (right halves are C07's subject)", "OpenMDAO/NumPy trusted"]
+ASSUMPTIONS = ["finite alphabets for values; nx<=4, ny<=7 in the complete product, production-size meshes 7x12 / 9x21 / 5x26 with the end value of every variable", "left-half and full-span meshes (right halves are C07's subject)", "OpenMDAO/NumPy trusted"]
 BOUND = {"quick": "nx<=3 (+ one planform with nx=4), half ny 3-4 / full 5 exhaustively + production-size meshes 7x12, 9x21, 5x26", "thorough": "nx<=4, ny<=7, more values"}
 TOL = 1e-11
 
